@@ -90,8 +90,8 @@ theorem isIdPart_plain (t : Tabs) {c : Nat} (h : ESG.isIdPart t c = true) : Plai
   · rw [if_pos hc] at h
     simp only [ESG.isAsciiLetter, ESG.isDigit, Bool.or_eq_true, Bool.and_eq_true, decide_eq_true_eq,
       beq_iff_eq] at h
-    refine ⟨?_, ?_, ?_, ?_, ?_⟩ <;> omega
-  · refine ⟨?_, ?_, ?_, ?_, ?_⟩ <;> omega
+    refine ⟨?_, ?_, ?_, ?_, ?_, ?_⟩ <;> omega
+  · refine ⟨?_, ?_, ?_, ?_, ?_, ?_⟩ <;> omega
 
 theorem isIdStart_plain (t : Tabs) {c : Nat} (h : ESG.isIdStart t c = true) : Plain c := by
   unfold ESG.isIdStart at h
@@ -99,8 +99,8 @@ theorem isIdStart_plain (t : Tabs) {c : Nat} (h : ESG.isIdStart t c = true) : Pl
   · rw [if_pos hc] at h
     simp only [ESG.isAsciiLetter, Bool.or_eq_true, Bool.and_eq_true, decide_eq_true_eq,
       beq_iff_eq] at h
-    refine ⟨?_, ?_, ?_, ?_, ?_⟩ <;> omega
-  · refine ⟨?_, ?_, ?_, ?_, ?_⟩ <;> omega
+    refine ⟨?_, ?_, ?_, ?_, ?_, ?_⟩ <;> omega
+  · refine ⟨?_, ?_, ?_, ?_, ?_, ?_⟩ <;> omega
 
 /-! ## One name character -/
 
@@ -421,8 +421,8 @@ theorem name_neutral (F : Feat) {r0 nm r1 : List Nat} (hch : AllChar r0)
     (h : groupName tabs r0 = some (nm, r1)) : ∃ p, 0x3C :: r0 = p ++ r1 ∧ Neutral F p := by
   obtain ⟨p, hp, hn⟩ := groupName_neutral F 0 tabs hch h
   refine ⟨0x3C :: (p ++ [0x3E]), by rw [hp]; simp, ?_⟩
-  have h1 : Neutral F [0x3C] := neutral_plain F (by refine ⟨?_, ?_, ?_, ?_, ?_⟩ <;> decide)
-  have h2 : Neutral F [0x3E] := neutral_plain F (by refine ⟨?_, ?_, ?_, ?_, ?_⟩ <;> decide)
+  have h1 : Neutral F [0x3C] := neutral_plain F (by refine ⟨?_, ?_, ?_, ?_, ?_, ?_⟩ <;> decide)
+  have h2 : Neutral F [0x3E] := neutral_plain F (by refine ⟨?_, ?_, ?_, ?_, ?_, ?_⟩ <;> decide)
   exact neutral_append (p := [0x3C]) h1 (neutral_append hn h2)
 
 end Regress.C08Frag
